@@ -40,6 +40,7 @@ def oracle_F(ops):
             k = int(f[1])
             if k in val: del val[k]; order.remove(k)
         elif f[0] == "clear": order, val = [], {}
+        elif f[0] == "copy": pass        # copy, mutate the original, move-construct from the copy, assign back: a value copy
         outs.append(o + "|[" + " ".join("%d=%d" % (k, val[k]) for k in order) + "]")
     return " ; ".join(outs)
 
@@ -121,8 +122,66 @@ def split_case(case):
     return (" ".join(t[:2]), t[2:]) if t[0] == "C" else (t[0], t[1:])
 
 
+def p_apply(order, tok):
+    """one ParameterizedObject operation on a list of cells [name, data or None, query] (cells may be shared)"""
+    f = tok.split(":")
+    cell = None
+    if len(f) > 1:
+        for c in order:
+            if c[0] == int(f[1]):
+                cell = c
+                break
+    o = "ok"
+    if f[0] == "has": o = "true" if cell is not None else "false"
+    elif f[0] in ("set", "add"):
+        if cell is None:
+            cell = [int(f[1]), None, False]; order.append(cell)
+        if f[0] == "set":
+            t, v = int(f[2]), int(f[3])
+            cell[1] = None if STORE_OF[t] is None else (STORE_OF[t], v)
+    elif f[0] == "get":
+        t, d = int(f[2]), int(f[3])
+        if cell is not None and cell[1] is not None and cell[1][0] == t:
+            cell[2] = True; o = "val=%d" % cell[1][1]
+        else: o = "val=%d" % d
+    elif f[0] == "rm":
+        if cell is not None: order.remove(cell)      # removes this object's pointer only
+    elif f[0] == "reset":
+        for c in order: c[2] = False
+    return o
+
+
+def p_dump(order):
+    return "[" + " ".join("%d=%s%s" % (c[0], "none" if c[1] is None else "%d:%d" % c[1], "q" if c[2] else "") for c in order) + "]"
+
+
+def oracle_Q(ops):
+    """what the source does with copies: the list is copied, the Param objects are shared"""
+    a, b, outs = [], [], []
+    for tok in ops:
+        if tok == "cab": b = list(a); o = "ok"
+        elif tok == "cba": a = list(b); o = "ok"
+        else: o = p_apply(a if tok[0] == "a" else b, tok[2:])
+        outs.append(o + "|" + p_dump(a) + "#" + p_dump(b))
+    return " ; ".join(outs)
+
+
+def gen_Q(r, maxlen):
+    ops = []
+    for _ in range(r.randint(2, maxlen)):
+        c = r.random()
+        if c < 0.12: ops.append("cab")
+        elif c < 0.18: ops.append("cba")
+        else:
+            one = gen_P(r, 1, 3).split()[1]
+            ops.append(("a:" if r.random() < 0.5 else "b:") + one)
+    return "Q " + " ".join(ops)
+
+
 def oracle(case):
     t = case.split()
+    if t[0] == "Q":
+        return oracle_Q(t[1:])
     if t[0] == "C":        # reference map keyed by the CONVERTED key
         return oracle_F(convert_ops(t[1], t[2:]))
     return oracle_F(t[1:]) if t[0] == "F" else oracle_P(t[1:])
@@ -168,7 +227,8 @@ def gen_F(r, maxlen, nkeys):
         elif c < 0.82: ops.append("cati:%d" % r.randint(0, nkeys + 1))
         elif c < 0.90: ops.append("size")
         elif c < 0.96: ops.append("empty")
-        else: ops.append("clear")
+        elif c < 0.98: ops.append("clear")
+        else: ops.append("copy")
     return "F " + " ".join(ops)
 
 
@@ -265,6 +325,123 @@ def wide_arguments(ctx, model, exe, r, bad_facts):
         ctx.cov["wide_argument_runs"]["note"] = "no failing history among the wide-argument runs either"
 
 
+
+# ---------------------------------------------------------------------------------------------------- inventory closure
+# Every declaration of FlatMap.h / ParameterizedObject.{h,cpp} (members with access/virtual, the special members the classes
+# have without declaring them, namespace-level declarations) as factgen.py lists them on every run, mapped to the theorems /
+# source-derived obligations and the harness operations that cover it ("ops": keys of the op histogram; F:* / P:* = every
+# step, because every step dumps through the iterators), or to an out-of-scope reason.  The check FAILS CLOSED on a
+# declaration missing here, an entry whose declaration vanished / changed, and a covered entry that was not executed.
+def _c(obl, ops):
+    return {"obl": obl.split(), "ops": ops.split()}
+
+
+_IT = "facts_fm_iterators facts_fm_iteration fm_iteration_order"
+COVER = {
+    "FlatMap": {
+        "type item_t : std::pair<KEY, VALUE>": _c("facts_fm_declared facts_fm_members", "F:*"),
+        "type storage_t : std::vector<item_t>": _c("facts_fm_declared facts_fm_members", "F:*"),
+        "type iterator_t : decltype(std::declval<rkcommon::containers::FlatMap::storage_t>().begin())": _c("facts_fm_declared " + _IT, "F:*"),
+        "type citerator_t : decltype(std::declval<rkcommon::containers::FlatMap::storage_t>().cbegin())": _c("facts_fm_declared " + _IT, "F:*"),
+        "type riterator_t : decltype(std::declval<rkcommon::containers::FlatMap::storage_t>().rbegin())": _c("facts_fm_declared " + _IT, "F:*"),
+        "type criterator_t : decltype(std::declval<rkcommon::containers::FlatMap::storage_t>().crbegin())": _c("facts_fm_declared " + _IT, "F:*"),
+        "ctor FlatMap<KEY, VALUE> : void () = default": _c("facts_fm_members fm_nodup", "F:*"),
+        "dtor ~FlatMap<KEY, VALUE> : void () = default": _c("facts_fm_declared", "F:*"),
+        "method at : VALUE &(const KEY &)": _c("facts_fm_at fm_refines fm_last_write fm_set_overwrites_exactly", "F:at"),
+        "method at : const VALUE &(const KEY &) const": _c("facts_fm_at const_ops_do_not_modify const_overloads_same_answer", "F:cat"),
+        "method operator[] : VALUE &(const KEY &)": _c("facts_fm_index fm_refines fm_set_overwrites_exactly", "F:idx F:set"),
+        "method operator[] : const VALUE &(const KEY &) const":
+            {"out": "cannot be instantiated: its body calls push_back on a const vector, so `c[k]` on a const FlatMap does not compile; "
+                    "a compile probe re-establishes that on every run (fact ff_const_index_uninstantiable in facts_fm_members)"},
+        "method at_index : rkcommon::containers::FlatMap::item_t &(size_t)": _c("facts_fm_at_index fm_iteration_order fm_refines", "F:ati"),
+        "method at_index : const rkcommon::containers::FlatMap::item_t &(size_t) const": _c("facts_fm_at_index const_ops_do_not_modify", "F:cati"),
+        "method size : size_t () const": _c("facts_fm_size_empty_contains const_ops_do_not_modify", "F:size"),
+        "method empty : size_t () const": _c("facts_fm_size_empty_contains const_ops_do_not_modify", "F:empty"),
+        "method contains : bool (const KEY &) const": _c("facts_fm_size_empty_contains const_ops_do_not_modify fm_refines", "F:has"),
+        "method erase : void (const KEY &)": _c("facts_fm_erase fm_refines fm_iteration_order", "F:erase"),
+        "method clear : void ()": _c("facts_fm_clear_reserve fm_refines", "F:clear"),
+        "method reserve : void (size_t)": _c("facts_fm_clear_reserve facts_fm_reserve_const", "F:*"),
+        "method begin : rkcommon::containers::FlatMap::iterator_t ()": _c(_IT, "F:*"),
+        "method begin : rkcommon::containers::FlatMap::citerator_t () const": _c(_IT, "F:*"),
+        "method cbegin : rkcommon::containers::FlatMap::citerator_t () const": _c(_IT, "F:*"),
+        "method end : rkcommon::containers::FlatMap::iterator_t ()": _c(_IT, "F:*"),
+        "method end : rkcommon::containers::FlatMap::citerator_t () const": _c(_IT, "F:*"),
+        "method cend : rkcommon::containers::FlatMap::citerator_t () const": _c(_IT, "F:*"),
+        "method rbegin : rkcommon::containers::FlatMap::riterator_t ()": _c(_IT, "F:*"),
+        "method rbegin : rkcommon::containers::FlatMap::criterator_t () const": _c(_IT, "F:*"),
+        "method crbegin : rkcommon::containers::FlatMap::criterator_t () const": _c(_IT, "F:*"),
+        "method rend : rkcommon::containers::FlatMap::riterator_t ()": _c(_IT, "F:*"),
+        "method rend : rkcommon::containers::FlatMap::criterator_t () const": _c(_IT, "F:*"),
+        "method crend : rkcommon::containers::FlatMap::criterator_t () const": _c(_IT, "F:*"),
+        "method lookup : rkcommon::containers::FlatMap::iterator_t (const KEY &) [private]": _c("facts_fm_lookup facts_fm_step", "F:at F:idx F:set"),
+        "method lookup : rkcommon::containers::FlatMap::citerator_t (const KEY &) const [private]": _c("facts_fm_lookup facts_fm_step", "F:cat F:has"),
+        "field values : rkcommon::containers::FlatMap::storage_t [private]": _c("facts_fm_members facts_fm_declared", "F:*"),
+        "implicit copy constructor : generated": _c("fm_copy_is_value_copy", "F:copy"),
+        "implicit copy assignment : generated": _c("fm_copy_is_value_copy", "F:copy"),
+        "implicit move constructor : none (a move is a copy)": _c("fm_copy_is_value_copy", "F:copy"),
+        "implicit move assignment : none (a move is a copy)": _c("fm_copy_is_value_copy", "F:copy"),
+        "namespace containers: template class FlatMap": _c("facts_fm_declared", "F:*"),
+    },
+    "ParameterizedObject": {
+        "ctor ParameterizedObject : void () = default": _c("po_nodup facts_po_declared", "P:*"),
+        "dtor ~ParameterizedObject : void () noexcept = default [virtual]": _c("facts_po_declared", "P:*"),
+        "struct Param": _c("facts_po_members facts_po_declared", "P:*"),
+        "Param::ctor Param : void (const std::string &)": _c("facts_po_members facts_po_findParam", "P:set P:add"),
+        "Param::dtor ~Param : void () noexcept = default": _c("facts_po_declared", "P:rm"),
+        "Param::template set : void (const T &)": _c("facts_po_setParam po_set_overwrites_exactly po_set_then_get_stored_type", "P:set"),
+        "Param::field data : utility::Any": _c("facts_po_members po_set_overwrites_exactly", "P:*"),
+        "Param::field name : std::string": _c("facts_po_members po_nodup", "P:*"),
+        "Param::field query : bool": _c("facts_po_members po_query_set po_query_until_reset", "P:*"),
+        "method hasParam : bool (const std::string &)": _c("facts_po_hasParam po_refines", "P:has"),
+        "template setParam : void (const std::string &, const T &)": _c("facts_po_setParam po_refines po_set_overwrites_exactly", "P:set"),
+        "template getParam : T (const std::string &, T)": _c("facts_po_getParam po_type_mismatch po_query_set", "P:get"),
+        "method removeParam : void (const std::string &)": _c("facts_po_removeParam po_refines", "P:rm"),
+        "method resetAllParamQueryStatus : void ()": _c("facts_po_reset po_query_until_reset", "P:reset"),
+        "method findParam : rkcommon::utility::ParameterizedObject::Param *(const std::string &, bool) [protected]":
+            _c("facts_po_findParam facts_po_step", "P:add P:set P:get P:has"),
+        "method params_begin : std::vector<std::shared_ptr<Param>>::iterator () [protected]": _c("facts_po_reset facts_po_params_order", "P:*"),
+        "method params_end : std::vector<std::shared_ptr<Param>>::iterator () [protected]": _c("facts_po_reset facts_po_params_order", "P:*"),
+        "field paramList : std::vector<std::shared_ptr<Param>> [private]": _c("facts_po_members facts_po_declared", "P:*"),
+        "implicit copy constructor : generated": _c("po_copy_shares_params po_copy_lists_independent", "Q:cab"),
+        "implicit copy assignment : generated": _c("po_copy_shares_params po_copy_lists_independent", "Q:cab Q:cba"),
+        "implicit move constructor : none (a move is a copy)": _c("po_copy_shares_params", "Q:cba"),
+        "implicit move assignment : none (a move is a copy)": _c("po_copy_shares_params", "Q:cba"),
+        "Param::implicit copy constructor : generated": {"out": "never invoked: Params are created by make_shared<Param>(name) and only the shared_ptrs are copied "
+                                                                "(po_copy_shares_params); copying a Param is not an operation of the map"},
+        "Param::implicit copy assignment : generated": {"out": "never invoked (see Param copy constructor)"},
+        "Param::implicit move constructor : none (a move is a copy)": {"out": "never invoked (see Param copy constructor)"},
+        "Param::implicit move assignment : none (a move is a copy)": {"out": "never invoked (see Param copy constructor)"},
+        "namespace utility: struct ParameterizedObject": _c("facts_po_declared", "P:*"),
+    },
+}
+
+
+def inventory_check(ctx, facts, hist):
+    inv = facts.get("inventory") or {}
+    theorems = set(ctx.cov.get("theorems") or [])
+    report_ = {}
+    for cls, table in COVER.items():
+        got = inv.get(cls) or []
+        for d in got:
+            if d not in table:
+                ctx.broken.append("inventory %s: declaration not in COVER (new or changed member / overload): %r" % (cls, d))
+        for d, e in table.items():
+            if d not in got:
+                ctx.broken.append("inventory %s: COVER entry has no declaration any more (removed or signature changed): %r" % (cls, d))
+                continue
+            if "out" in e:
+                report_[cls + " :: " + d] = {"out_of_scope": e["out"]}
+                continue
+            n = sum(hist.get(k, 0) for k in e["ops"])
+            missing = [t for t in e["obl"] if theorems and t not in theorems]
+            report_[cls + " :: " + d] = {"executed": n, "ops": e["ops"], "obligations": e["obl"]}
+            if n == 0:
+                ctx.broken.append("inventory %s: covered declaration executed 0 times in this run: %r (ops %s)" % (cls, d, e["ops"]))
+            if missing:
+                ctx.broken.append("inventory %s: %r names obligations that do not exist: %s" % (cls, d, missing))
+    ctx.cov["inventory"] = report_
+
+
 FACT_FILES = ("FactsCheckFM", "FactsCheckPO", "PropertiesFacts", "PropertiesFactsPO")
 
 
@@ -358,7 +535,10 @@ def run(ctx):
     cases = [c for c in all_cases if c.startswith("F ")]
     mism, crashes, mlines = vlib.differential(ctx, cases, model, impls)
     pmism, pcrashes, pmlines = vlib.differential(ctx, pcases, model, pimpls)
-    ctx.count(len(cases) * len(impls) + len(pcases))
+    qcases = [gen_Q(r, 40) for _ in range(ctx.pick(800, 8000))] + ["Q a:set:1:0:5 cab b:set:1:0:6 b:set:2:0:7 b:rm:1 a:get:1:0:100 cba a:has:2"]
+    qimpls = [("ParameterizedObject (two objects, copies)", exe_po, ["Q"])]
+    qmism, qcrashes, qmlines = vlib.differential(ctx, qcases, model, qimpls)
+    ctx.count(len(cases) * len(impls) + len(pcases) + len(qcases))
     # value types with ==-equal but distinguishable values (+-0.0f, NaNs; key-only == struct), decoded bit-exactly: the FlatMap
     # histories only (random ones and the exhaustive ones up to length 3)
     vcases = [c for c in all_cases[:ncorp + nrand] if c.startswith("F ")] + list(exhaustive_F(3))
@@ -367,6 +547,12 @@ def run(ctx):
     ctx.count(len(vcases) * len(vimpls))
     ctx.cov["value_identity_runs"] = {"instantiations": [l for (l, _, _) in vimpls], "cases": len(vcases), "mismatches": len(vmism)}
     hist = {}
+    for c in qcases:
+        for t in c.split()[1:]:
+            kq = "Q:" + (t if t in ("cab", "cba") else t[0] + ":" + t.split(":")[1])
+            hist[kq] = hist.get(kq, 0) + 1
+    hist["F:*"] = sum(len(c.split()) - 1 for c in cases) * len(impls)
+    hist["P:*"] = sum(len(c.split()) - 1 for c in pcases) + sum(len(c.split()) - 1 for c in qcases)
     for c, ml in zip(cases + pcases, mlines + pmlines):
         ops = c.split()[1:]
         for t in ops:
@@ -399,9 +585,11 @@ def run(ctx):
             ctx.sample({"case": c, "model_and_impl": ml[:300]})
     report(ctx, exe, cases, impls, mism, crashes)
     report(ctx, exe_po, pcases, pimpls, pmism, pcrashes)
+    report(ctx, exe_po, qcases, qimpls, qmism, qcrashes)
+    inventory_check(ctx, facts, hist)
     report(ctx, exe, vcases, vimpls, vmism, vcrashes)
     wide_arguments(ctx, model, exe, r, bad_facts)
-    ctx.cov["mismatches"] = len(mism) + len(pmism) + len(vmism)
+    ctx.cov["mismatches"] = len(mism) + len(pmism) + len(vmism) + len(qmism)
     if bad_facts and not ctx.violations:
         ctx.log("no concrete failing history found although source facts are broken: reported as no-failing-input-found")
     ctx.trusted += ["correspondence harness harness/C10/harness.cpp + generators/oracle in props/C10/check.py (g++ -O1, ASan+UBSan)",
